@@ -163,6 +163,36 @@ func ruleL3(p *Prog, r *Report) {
 						}
 					}
 				}
+				// the answer computed by the caller and handed in as a parameter
+				if prm, ok := canon(ifi.Cond).(*ssa.Parameter); ok && edgeDominates(b, 0, in.Block()) {
+					idx := -1
+					for i, q := range f.Params {
+						if q == prm {
+							idx = i
+						}
+					}
+					sites := p.CallersOf(f)
+					all := idx >= 0 && len(sites) > 0
+					for _, cs := range sites {
+						a := cs.Instr.Common().Args
+						good := false
+						if idx >= 0 && idx < len(a) {
+							if c, ok := canon(a[idx]).(*ssa.Call); ok {
+								for _, n := range names {
+									if calleeName(c) == n {
+										good = true
+									}
+								}
+							}
+						}
+						if !good {
+							all = false
+						}
+					}
+					if all {
+						return true, "set on the true edge of " + names[0] + "(), evaluated by every caller"
+					}
+				}
 			}
 			return false, ""
 		}
@@ -194,13 +224,26 @@ func ruleL3(p *Prog, r *Report) {
 			continue
 		}
 		found := map[string]ssa.Instruction{}
-		eachInstr(enc, func(in ssa.Instruction) {
-			if c, ok := in.(ssa.CallInstruction); ok {
-				if g := c.Common().StaticCallee(); g != nil && recvName(g) == "head" {
-					found[g.Name()] = in
-				}
+		foundIn := map[string]*ssa.Function{}
+		// the encoder and the private helpers of the same type it calls (a head builder)
+		encScope := []*ssa.Function{enc}
+		for _, g := range p.calleesDeep(enc) {
+			if g.Pkg == p.RootSSA && recvName(g) == tn && g != enc && g.Object() != nil && !g.Object().Exported() && len(g.Blocks) > 0 {
+				encScope = append(encScope, g)
 			}
-		})
+		}
+		for _, ef := range encScope {
+			eachInstr(ef, func(in ssa.Instruction) {
+				if c, ok := in.(ssa.CallInstruction); ok {
+					if g := c.Common().StaticCallee(); g != nil && recvName(g) == "head" {
+						if _, dup := found[g.Name()]; !dup {
+							found[g.Name()] = in
+							foundIn[g.Name()] = ef
+						}
+					}
+				}
+			})
+		}
 		for _, s := range requiredBy[tn] {
 			n++
 			cons := "flag-set:" + tn + "." + s
@@ -220,7 +263,7 @@ func ruleL3(p *Prog, r *Report) {
 				r.Decide(uncond, R, cons, p.InstrPos(in), "storable slabs always declare 'no size limit'", "StorableSlab no longer declares 'no size limit' on every path")
 				continue
 			}
-			ok, why := guards[s](enc, in)
+			ok, why := guards[s](foundIn[s], in)
 			r.Decide(ok, R, cons, p.InstrPos(in), why, "flag is not set under exactly the state it describes ("+s+")")
 		}
 	}
